@@ -118,5 +118,16 @@ EXTRA_TEXT4 = {
 }
 for _k, _v in EXTRA_TEXT4.items():
     CHECKS[_k]["text"] += _v
+EXTRA_TEXT5 = {
+ "C01": " Wave 9: partial operations (division, remainder, ilog*, byte-offset text operations) under expand/recreate need a non-zero constant or a linear proof.",
+ "C02": " Wave 9: the rebuilt header's HLIT/HDIST are the lengths read after the stored count correction; a tree-code item is built only under the symbol test that names it.",
+ "C03": " Wave 9: every TreeCodeType value built by the header reader lies on the edge of the symbol test that names it.",
+ "C06": " Wave 9: the scanner is handed the caller's whole input, once, outside any loop.",
+ "C07": " Wave 9: BitWriter.bits_in < 8 between calls is proved as a representation invariant (who may store the field over all bodies, the drain routine's only exit, every other writer drains before returning); the header reader records exactly the symbol it read.",
+ "C11": " Wave 9: besides the bounded decode and the reconstruction no fallible step of decompress_zstd may be fed from the capacity or the bytes; partial operations under both entries need a proof.",
+ "C13": " Wave 9: partial operations (incl. byte-offset text operations in the error path) under the reconstruction entry need a proof.",
+}
+for _k, _v in EXTRA_TEXT5.items():
+    CHECKS[_k]["text"] += _v
 for _k, _v in NOTE_FIX.items():
     CHECKS[_k]["note"] = _v
